@@ -208,6 +208,9 @@ class CxxParser:
 
             if tok.type in self._balanced_token_map:
                 rtoks.extend(self._consume_balanced_tokens(tok))
+            elif tok.type in self._end_balanced_tokens and tok.type != ">":
+                # a closing bracket that nothing in this value opened
+                raise self._parse_error(tok)
             else:
                 rtoks.append(tok)
 
